@@ -284,6 +284,33 @@ pub fn c11(ctx: &mut Ctx) {
 // C10: queries
 // ------------------------------------------------------------------------------------------
 
+/// Drives the commit phase piecewise through the public functions (`traces_commit`,
+/// `table_commit`, `fri_commit`, `generate_queries`) WITHOUT the OODS and PoW checks, so that the
+/// whole challenge history of a faulted run is observable even where `verify` would stop early.
+fn piecewise_events<L: swiftness_air::layout::LayoutTrait>(proof: &StarkProof) -> Vec<Event> {
+    verif::start_recording();
+    let _ = std::panic::catch_unwind(std::panic::AssertUnwindSafe(|| {
+        let digest = proof.public_input.get_hash(proof.config.n_verifier_friendly_commitment_layers);
+        let mut t = Transcript::new(digest);
+        let _traces = L::traces_commit(&mut t, &proof.unsent_commitment.traces, proof.config.traces.clone());
+        let _alpha = t.random_felt_to_prover();
+        let _c = swiftness_commitment::table::commit::table_commit(&mut t, proof.unsent_commitment.composition, proof.config.composition.clone());
+        let _z = t.random_felt_to_prover();
+        t.read_felt_vector_from_prover(&proof.unsent_commitment.oods_values);
+        let _beta = t.random_felt_to_prover();
+        let _fri = swiftness_fri::fri::fri_commit(&mut t, proof.unsent_commitment.fri.clone(), proof.config.fri.clone());
+        t.read_uint64_from_prover(proof.unsent_commitment.proof_of_work.nonce);
+        let size = Felt::TWO.pow_felt(&(proof.config.log_trace_domain_size + proof.config.log_n_cosets));
+        let _q = swiftness_stark::queries::generate_queries(&mut t, proof.config.n_queries, size);
+    }));
+    verif::take_events()
+}
+
+fn piecewise(layout: &str, image: &Value) -> Option<Vec<Event>> {
+    let proof: StarkProof = serde_json::from_value(image.clone()).ok()?;
+    Some(crate::with_layout!(layout, piecewise_events, &proof))
+}
+
 fn felt_u64(f: &Felt) -> Option<u64> {
     f.to_biguint().try_into().ok()
 }
@@ -572,6 +599,27 @@ pub fn c08(ctx: &mut Ctx) {
             ctx.stats.evaluations += 1;
             ctx.stats.fired(&kind);
             let a_idx = first_absorbs[absorb_index(&path)];
+            // the complete history, driven piecewise past the checks that stop `verify`
+            if let (Some(pw_base), Some(pw_fault)) = (piecewise(&base.layout, &base.image), piecewise(&base.layout, &img)) {
+                ctx.stats.evaluations += 1;
+                if pw_base != ev {
+                    ctx.violation("C08|protocol|piecewise-differs-from-verify", &format!("{}: driving the commit phase through the public functions gives another history than verify", base.name), mk(ctx, &[], "history"));
+                } else if pw_fault.len() != pw_base.len() || pw_fault[..a_idx] != pw_base[..a_idx] {
+                    ctx.violation(&format!("C08|protocol|prefix|{kind}"), &format!("{}: (piecewise) events before the changed message {path} differ", base.name), mk(ctx, std::slice::from_ref(&fault), "message-position"));
+                } else {
+                    let mut n = 0;
+                    for j in a_idx..pw_base.len() {
+                        if let (Event::Squeeze { out: a, .. }, Event::Squeeze { out: b, .. }) = (&pw_base[j], &pw_fault[j]) {
+                            n += 1;
+                            if a == b {
+                                ctx.violation(&format!("C08|protocol|suffix|{kind}"), &format!("{}: (piecewise) challenge at event {j} unchanged after changing {path}", base.name), mk(ctx, std::slice::from_ref(&fault), "message-position"));
+                                break;
+                            }
+                        }
+                    }
+                    ctx.stats.probe_n("later-challenges-compared-piecewise", n);
+                }
+            }
             let mut problem = None;
             if fev.len() <= a_idx || fev[..a_idx] != ev[..a_idx] {
                 problem = Some("prefix: events before the changed message differ".to_string());
